@@ -34,7 +34,7 @@ INV = ['CallbacksOnce', 'ResolvedHasCallback', 'CacheExact', 'LostOnlyIfReal',
        'RestartBudget', 'LostNotLate', 'HardWithinScan', 'LostOutcomeReal']
 PROPS = ['OutcomeStable', 'OwnOutcome', 'LateIgnored', 'LostNotEarly', 'LostMarkRight',
          'VictimGone', 'SoftOnlyIfDue', 'SoftSignalMatchesCallback', 'SoftToRunner', 'HardDelivered',
-         'SoftDelivered',
+         'SoftDelivered', 'SnapFresh',
          'SizeAfterMaintain', 'CleanExitsFree', 'NoForkOnRaise', 'AckResetsBudget']
 
 
@@ -65,9 +65,9 @@ FORMULAS = {
     'C04': (['LostOnlyIfReal', 'LostNotLate', 'LostOutcomeReal', 'QuietResolved'],
             ['LostMarkRight', 'LostNotEarly', 'SizeAfterMaintain', 'OwnOutcome']),
     'C05': (['NoFalseTimeout', 'HardWithinScan', 'TimeoutCallbackOnce', 'TimeoutCallbackArgs'],
-            ['VictimGone', 'OwnOutcome', 'SizeAfterMaintain', 'HardDelivered']),
+            ['VictimGone', 'OwnOutcome', 'SizeAfterMaintain', 'HardDelivered', 'SnapFresh']),
     'C06': (['SoftOnce', 'TimeoutCallbackArgs'],
-            ['SoftOnlyIfDue', 'SoftSignalMatchesCallback', 'SoftToRunner', 'SoftDelivered']),
+            ['SoftOnlyIfDue', 'SoftSignalMatchesCallback', 'SoftToRunner', 'SoftDelivered', 'SnapFresh']),
     'C09': (['NeverAbove', 'DistinctIdx', 'QuotaRespected', 'LostOutcomeReal'],
             ['SizeAfterMaintain']),
     'C10': (['SemBounded', 'SlotsConserved', 'InFlightBound'], []),
